@@ -349,6 +349,10 @@ func c03Gen(dstKinds, srcKinds []string, strategies []dm.Strategy) func(t *rapid
 			// Go maps hold entries by one key; slices (and the struct stores' slices) hold compound keys as well
 			o.CompoundKeys = true
 			o.Types = []string{"int8", "int32", "int64", "uint16", "uint64", "decimal64", "string", "boolean"}
+			if !strings.HasSuffix(dst, "-struct") {
+				// (every key type: for most of them the node keeps a list it creates in a map[interface{}]...)
+				o.KeyTypes = []string{"string", "int32", "string", "int32", "int8", "int64", "uint16", "uint64", "boolean"}
+			}
 		}
 		if strings.HasSuffix(dst, "-struct") {
 			o.Choices, o.NestedChoice, o.Defaults, o.Presence = false, false, false, false
